@@ -112,13 +112,15 @@ prop('C05',
            'synctest bubble, followed by a fair completion phase (all elements offered with the inputs still open, then inputs closed); oracle: list functions on the input; '
            'delivered is a prefix of the expected list at every receive, equal to it when the output closes, per-argument call counts and call order of the user function, '
            'number of elements removed from the input (Take/TakeWhile), early close of Take/TakeWhile without waiting for more input, no goroutine of the stage alive after completion; '
-           'plus Seq/ToSeq: ToSeq(chain(Seq(xs...))) for generated chains of Map/Filter/Take/TakeWhile/FMap over 0..24 (10%: 1000..2200) elements equals the list functions, the caller overwriting its slice right after Seq returned; the input buffer may already hold elements when the stage is created (Prefill); a fifth of the scenarios run an independent second instance of the stage alongside (own channels and context, must complete as if alone); a separate part streams elements of type any (nil interface, typed nils, zero values, non-comparable payloads) through Take/Filter/Map/TakeWhile; all scripts of 5 (thorough: 7) moves over {send, close, recv 0, recv 1, burst 2} are enumerated for every stage, capacity {0,1} and two inputs; a separate part folds element objects of a pointer-typed carrier (Combine adds into its left operand, shared objects half of the time) twice and re-reads the objects afterwards; a few hundred (thorough: 15000) of the generated scenarios are also executed in a binary built with the race detector; non-trivial = input length >= 2 and (capacity < length or a quiescent point with a blocked producer / full buffer); distinct = different canonical scenario'),
+           'plus Seq/ToSeq: ToSeq(chain(Seq(xs...))) for generated chains of Map/Filter/Take/TakeWhile/FMap over 0..24 (10%: 1000..2200) elements equals the list functions, the caller overwriting its slice right after Seq returned; the input buffer may already hold elements when the stage is created (Prefill); a fifth of the scenarios run an independent second instance of the stage alongside (own channels and context, must complete as if alone); a separate part streams elements of type any (nil interface, typed nils, zero values, non-comparable payloads) through Take/Filter/Map/TakeWhile; all scripts of 5 (thorough: 7) moves over {send, close, recv 0, recv 1, burst 2} are enumerated for every stage, capacity {0,1} and two inputs; a separate part folds element objects of a pointer-typed carrier (Combine adds into its left operand, shared objects half of the time) twice and re-reads the objects afterwards; a few hundred (thorough: 15000) of the generated scenarios are also executed in a binary built with the race detector; a separate part lets two stages of the same kind (ForEach, Map, Filter, fork.ForEach) consume ONE input channel with gated functions: every handed element is processed exactly once by one of them and nothing else is; non-trivial = input length >= 2 and (capacity < length or a quiescent point with a blocked producer / full buffer); distinct = different canonical scenario'),
      assumptions=E3_ASSUME,
      parts=[
          dict(name='enum', engine='E3', pkg='pipes', test='TestC05Enum', kind='plain',
               quick=dict(shards=8), thorough=dict(shards=16, timeout=3000)),
          dict(name='any-elements', engine='E3', pkg='pipes', test='TestC05Any', replay_test='TestReplayAny',
               quick=dict(cases=4000, shards=1), thorough=dict(cases=100000, shards=4, timeout=3000)),
+         dict(name='shared-input', engine='E3', pkg='pipes', test='TestC05Shared',
+              quick=dict(cases=6000, shards=2), thorough=dict(cases=120000, shards=8, timeout=3000)),
          dict(name='fold-ref', engine='E3', pkg='pipes', test='TestC05FoldRef',
               quick=dict(cases=3000, shards=1), thorough=dict(cases=60000, shards=4, timeout=3000)),
          dict(name='seq', engine='E3', pkg='pipes', test='TestC05Seq',
@@ -192,11 +194,13 @@ prop('C08',
            'try-receive, drain-to-empty) ending by class: cancel by the harness, cancel with a backlog just sent, sends racing the cancel inside one batch, close of the send side with a backlog; '
            'oracle: FIFO model of the sends that completed: at every quiescent point every started send has returned (a send never waits for the receiver), received values are exactly 1,2,3,..., '
            'the receive side never closes before cancel/close, and after cancel or close-by-sender a full drain yields every completed send and then "closed"; process survives (journal), bubble ends (no leak); '
-           'besides the sequential sender, batches start 1..8 INDEPENDENT one-shot senders (several goroutines parked on a full send buffer while the cancel arrives; their values may arrive in any order, each at most once, every completed one delivered); in 25% of the scenarios a pipe of another element type (string) runs through a few values first in the same process; a fifth of the scenarios keep a second pipe of the same element type alive for the whole scenario (own context, five values, ended the other way), 5% create the pipe on a cancelled context; a separate part sends values of type any (nil interface, zero values, non-comparable payloads); all scripts of 5 (thorough: 7) moves over {send, recv, drain, burst 3, recv+send batch} are enumerated for capacities {0,1,2} and both ways of ending the stream; further end classes: close by the sender with a backlog and only then a cancel; up to four sends completing into the send buffer, close and cancel issued by one goroutine without yielding (repeated 6 times); a sixth of the scenarios (and every pre-cancelled one) also start sends after the cancel: each completes and is delivered, or ends by the closed-channel panic, none stays blocked; a quarter end by a deadline-style context; scripts contain long virtual waits; non-trivial = backlog >= 2 at some quiescent point and (the stream ends with a backlog / racing sends, or the queue drained to empty and refilled at least twice); distinct = different canonical scenario'),
+           'besides the sequential sender, batches start 1..8 INDEPENDENT one-shot senders (several goroutines parked on a full send buffer while the cancel arrives; their values may arrive in any order, each at most once, every completed one delivered); in 25% of the scenarios a pipe of another element type (string) runs through a few values first in the same process; a fifth of the scenarios keep a second pipe of the same element type alive for the whole scenario (own context, five values, ended the other way), 5% create the pipe on a cancelled context; a separate part sends values of type any (nil interface, zero values, non-comparable payloads); all scripts of 5 (thorough: 7) moves over {send, recv, drain, burst 3, recv+send batch} are enumerated for capacities {0,1,2} and both ways of ending the stream; further end classes: close by the sender with a backlog and only then a cancel; up to four sends completing into the send buffer, close and cancel issued by one goroutine without yielding (repeated 6 times); a sixth of the scenarios (and every pre-cancelled one) also start sends after the cancel: each completes and is delivered, or ends by the closed-channel panic, none stays blocked; a quarter end by a deadline-style context; scripts contain long virtual waits; a separate part runs send/receive scripts over pipe.New[struct{}] (zero-size elements: only counts are observable); a constructed scenario (a backlog in the queue, then sends racing the cancel) is executed 20000 times on every run; non-trivial = backlog >= 2 at some quiescent point and (the stream ends with a backlog / racing sends, or the queue drained to empty and refilled at least twice); distinct = different canonical scenario'),
      assumptions=E3_ASSUME + ['no send is started after a completed cancel (the library closes the send side on cancel by design); a send racing the cancel may complete, give up or hit the closed channel - only completed sends enter the model'],
      parts=[
          dict(name='any-elements', engine='E3', pkg='pipes', test='TestC08Any', replay_test='TestReplayAny',
               quick=dict(cases=4000, shards=1), thorough=dict(cases=100000, shards=4, timeout=3000)),
+         dict(name='zero-size-elements', engine='E3', pkg='pipes', test='TestC08Zero',
+              quick=dict(cases=3000, shards=1), thorough=dict(cases=60000, shards=4, timeout=3000)),
          dict(name='enum', engine='E3', pkg='pipes', test='TestC08Enum', kind='plain',
               quick=dict(shards=4), thorough=dict(shards=16, timeout=3000)),
          dict(name='rapid', engine='E3', pkg='pipes', test='TestC08',
